@@ -11,6 +11,16 @@ each of them with its inode, mode and content. Two nodes are the same iff all of
 so "exactly as it was" for a file outside the layer means its mode and its content are what they were, whether or not
 its inode also has a name inside the layer. (The link *count* of such a file is not part of its node: it goes down,
 rightly, when the layer's names go.)
+
+*A recreate is two halves with the buildpack's code in between.* The layer is deleted, then created anew; the creating
+half calls the buildpack (`Layer::create`), which may fail. The property's "all of the layer's own entries are gone" is
+about the deleting half and cannot wait for the creating half to succeed: once the old layer has been deleted, **no
+entry of the old layer survives** — nothing below the layer directory, not the old `<name>.toml`, none of the old SBOM
+files — whether or not a new layer is then completed (`OldGone`). What the failed creating half leaves is not the
+property's subject: an empty directory or nothing at `<layers>/<name>`; a metadata or SBOM file only if it is *not*
+the one that was there before. A call that ends *before* anything is deleted — the deciding callback returned an error —
+must not have deleted or altered anything of the layer (`Intact`; a metadata file appearing where there was none is
+the reader's normalisation, not a deletion).
 -/
 namespace CnbVerif.Spec.Frame
 open CnbVerif CnbVerif.RmTree
@@ -72,6 +82,35 @@ def freshDoc : Api → Bytes
   | .cached => [67]
   | .handle => [82]
 
+/-- the layer's own paths beside its directory: the metadata file and the SBOM files -/
+def sideFiles (n : Name) : List Path := layerToml n :: layerSboms n
+
+/-- **OldGone.** After the deleting half of a recreate, whatever became of the creating half: nothing exists below the
+layer directory; at `<layers>/<name>` there is nothing or a real directory (never the old link or file); and no side
+file of the old layer survives — where `<name>.toml` or an SBOM file stood before, that same file (mode, content) does
+not stand any more. -/
+def OldGone (n : Name) (before after : FS) : Prop :=
+  (∀ p, below n p = true → fget after p = none) ∧
+  (fget after (layerDir n) = none ∨ ∃ m, fget after (layerDir n) = some (.dir m)) ∧
+  (∀ p ∈ sideFiles n, ∀ v, fget before p = some v → fget after p ≠ some v)
+
+/-- **Intact.** Nothing of the layer was deleted or altered: every own path has the node it had, except that a
+metadata file may have appeared where there was none. -/
+def Intact (n : Name) (before after : FS) : Prop :=
+  ∀ p, own n p = true → fget after p = fget before p ∨ (p = layerToml n ∧ fget before p = none)
+
+/-- how a delete-and-recreate request ended, as far as the specification distinguishes -/
+inductive Outcome
+  /-- an existing layer was deleted and the new one completed -/
+  | recreated
+  /-- an existing layer was deleted, then the buildpack's creating callback failed -/
+  | failedCreate
+  /-- the buildpack's deciding callback failed: nothing had been deleted -/
+  | failedDecide
+  /-- anything else: there was no layer to delete, or a file-system error ended the call wherever it did -/
+  | other
+deriving DecidableEq, Repr
+
 /-! ### The same statements as executable checks on two snapshots (what the oracle runs) -/
 
 def paths (a b : FS) : List Path := a.map Prod.fst ++ b.map Prod.fst
@@ -95,6 +134,25 @@ def recreatedB (n : Name) (toml : Bytes) (after : FS) : Bool :=
 layer when the call succeeded. -/
 def judgeRequest (n : Name) (toml : Bytes) (ok : Bool) (before after : FS) : Bool :=
   frameB n before after && (!ok || recreatedB n toml after)
+
+def oldGoneB (n : Name) (before after : FS) : Bool :=
+  (after.map Prod.fst).all (fun p => !below n p || (fget after p).isNone) &&
+  (match fget after (layerDir n) with | none => true | some (.dir _) => true | _ => false) &&
+  (sideFiles n).all (fun p => (fget before p).isNone || !sameNode (fget after p) (fget before p))
+
+def intactB (n : Name) (before after : FS) : Bool :=
+  (paths before after).all (fun p => !own n p || sameNode (fget after p) (fget before p) ||
+    (decide (p = layerToml n) && (fget before p).isNone))
+
+/-- Verdict on one observed delete-and-recreate request, by how it ended: the frame always; the fresh layer when it
+succeeded; no old entry when the creating half failed; nothing of the layer touched when the deciding callback failed. -/
+def judgeOutcome (n : Name) (toml : Bytes) (o : Outcome) (before after : FS) : Bool :=
+  frameB n before after &&
+  (match o with
+   | .recreated => recreatedB n toml after
+   | .failedCreate => oldGoneB n before after
+   | .failedDecide => intactB n before after
+   | .other => true)
 
 /-- Verdict on one observed plain deletion. -/
 def judgeDelete (n : Name) (ok : Bool) (before after : FS) : Bool :=
